@@ -175,6 +175,9 @@ pub struct MacroDefinition {
 /// The number of '.loop' iterations (of all loops together, nested ones included) a single pass may run
 const MAX_LOOP_ITERATIONS: i64 = 0x10000;
 
+/// How deeply blocks, macro invocations and imports may be nested (the code generator recurses once per level)
+const MAX_NESTING_DEPTH: usize = 64;
+
 pub struct CodegenContext {
     tree: Arc<ParseTree>,
     options: CodegenOptions,
@@ -200,6 +203,9 @@ pub struct CodegenContext {
 
     /// The number of '.loop' iterations that were started during the current pass
     loop_iterations: i64,
+
+    /// How many blocks, macro invocations and imports enclose the token that is being emitted
+    nesting_depth: usize,
 
     /// The files whose tokens are being emitted right now because of an import (innermost last)
     import_stack: Vec<String>,
@@ -253,6 +259,7 @@ impl CodegenContext {
             current_scope_nx: SymbolIndex::new(0),
             next_macro_scope_id: 0,
             loop_iterations: 0,
+            nesting_depth: 0,
             import_stack: vec![],
             test_elements: vec![],
             source_map: SourceMap::default(),
@@ -535,7 +542,57 @@ impl CodegenContext {
         }
     }
 
+    /// The span to blame when a token that contains other tokens is nested too deeply
+    fn nesting_span(token: &Token) -> Option<Span> {
+        match token {
+            Token::Braces { block, .. } => Some(block.lparen.span),
+            Token::If { value, .. } => Some(value.span),
+            Token::Import { filename, .. } => Some(filename.span()),
+            Token::Label {
+                id,
+                block: Some(_),
+                ..
+            } => Some(id.span),
+            Token::Loop { expr, .. } => Some(expr.span),
+            Token::MacroInvocation { id, .. } => Some(id.span),
+            Token::Segment {
+                id,
+                block: Some(_),
+                ..
+            } => Some(id.span),
+            Token::Test { id, .. } => Some(id.span),
+            _ => None,
+        }
+    }
+
     fn emit_token(&mut self, token: &Token) -> CoreResult<()> {
+        match Self::nesting_span(token) {
+            Some(span) => {
+                // A macro that invokes itself, or a few thousand nested braces, would otherwise overflow the stack
+                if self.nesting_depth >= MAX_NESTING_DEPTH {
+                    if self.current_segment.as_ref().map(|s| s.as_str()) == Some("$dummy") {
+                        // Greedy analysis of code that is not assembled (an untaken branch that invokes its own
+                        // macro again, for instance): just stop descending
+                        return Ok(());
+                    }
+                    return Err(Diagnostic::error()
+                        .with_message(format!(
+                            "blocks, macro invocations and imports may be nested at most {} levels deep",
+                            MAX_NESTING_DEPTH
+                        ))
+                        .with_labels(vec![span.to_label()])
+                        .into());
+                }
+                self.nesting_depth += 1;
+                let result = self.emit_token_impl(token);
+                self.nesting_depth -= 1;
+                result
+            }
+            None => self.emit_token_impl(token),
+        }
+    }
+
+    fn emit_token_impl(&mut self, token: &Token) -> CoreResult<()> {
         match token {
             Token::Align { value, .. } => {
                 if let Some(pc) = self.try_current_target_pc() {
